@@ -299,7 +299,7 @@ def _parser_checks(pid, tier, seed):
     if True:
         g = {'C04': 'c04', 'C09': 'c09', 'C13': 'c13', 'C06': 'c06', 'C03': 'c03'}[pid]
         if pid != 'C03':
-            for K in ((4, 8, 10) if q else (6, 10, 12, 13)):
+            for K in ((4, 8, 10) if q else (6, 10, 12)):
                 out.append(spec('%s_sym%d' % (g, K), 'chk_parse_' + g, S(K), 'every byte string of length %d (all %d bytes symbolic)' % (K, K), max_seconds=1500))
             # message prefixes with a symbolic tail (reaches the bodies)
             pre_close = [0x76, 0x02, 0x11, 0x62, 0x00, 0x62, 0x00, 0x72, 0x63, 0x02, 0x01]
@@ -320,12 +320,16 @@ def _parser_checks(pid, tier, seed):
             lp = [i for i in range(len(fbl)) if fbl[i] == 0x71 and i > 15][0]
             nib9 = [('nib', 0xF)] + [('nib', 0x8)] * 7 + [('nib', 0x0)]
             out.append(spec('%s_listlen36' % g, 'chk_parse_' + g, fbl[:lp] + nib9 + fbl[lp + 1:], 'get-list file whose list TL byte is replaced by a 9-byte TLF with 36 symbolic length bits'))
-            names = SMALL_FILES if q else None
-            out += file_specs('chk_mut_' + g, g, tier, seed, [1, 2, 3, 4], names=names)
-            if not q:
-                out += file_specs('chk_mut_' + g, g, tier, seed, [0], names=None, nsym=24)
-            else:
+            if q:
+                out += file_specs('chk_mut_' + g, g, tier, seed, [1, 2, 3, 4], names=SMALL_FILES)
                 out += file_specs('chk_mut_' + g, g, tier, seed, [0], names=SMALL_FILES + VALUE_FILES[:2], nsym=12)
+            else:
+                # thorough: every small file plus the value / status / boundary-length files (measured: one 120-byte file costs
+                # ~15 min of corrupt1 exploration on 10 workers, so the set is bounded rather than "all 27")
+                more = SMALL_FILES + ['open_short_time', 'open_padtlf', 'close_sig', 'list_padtlf', 'octet16', 'list_empty_opts']
+                out += file_specs('chk_mut_' + g, g, tier, seed, [1, 2, 3, 4], names=more)
+                out += file_specs('chk_mut_' + g, g, tier, seed, [1, 3], names=VALUE_FILES[:1] + ['list_vals_misc', 'list16'])
+                out += file_specs('chk_mut_' + g, g, tier, seed, [0], names=None, nsym=16)
         else:
             out += file_specs('chk_mut_c03', 'c03', tier, seed, [0], names=None, nsym=(14 if q else 28))
             # valid encodings the generator does not emit: the short checksum form, choice tags in 3/4-byte encodings
@@ -370,7 +374,7 @@ def len_attack_specs(tier):
         # 9-byte TLF with concrete structure bits and a fully symbolic 36-bit length: every declared length up to and beyond 2^32-1
         return [('nib', first_hi)] + [('nib', 0x8)] * 7 + [('nib', 0x0)]
     for pos in tl_positions:
-        ns = (1, 2, 3, 5) if not q else (2, 4)
+        ns = (1, 3, 5) if not q else (2, 4)
         for n in ns:
             cells = fb[:pos] + S(n) + fb[pos + 1:]
             out.append(spec('c06_len_p%d_n%d' % (pos, n), 'chk_parse_c06', cells, 'get-list file with the type-length byte at offset %d replaced by %d symbolic bytes' % (pos, n), max_seconds=900 if q else 3000))
